@@ -653,9 +653,10 @@ func oracleGeneric(w *out.W, c *gcase, o *gobs) {
 		if dr.pre && tr.nDrop[dr.key] >= 2 {
 			t = append(t, "readded")
 		}
-		if !dr.pre && dr.renamed {
-			t = append(t, "renamed")
-		} else if !dr.pre && tr.nAdd[dr.key] >= 2 {
+		switch {
+		case !dr.pre && dr.renamed && tr.nAdd[dr.key] == 0:
+			t = append(t, "renamed") // the file never adds an object under this name: it got it by a rename
+		case !dr.pre && (tr.nAdd[dr.key] >= 2 || (dr.renamed && tr.nAdd[dr.key] >= 1)):
 			t = append(t, "recreated")
 		}
 		return strings.Join(t, ",")
@@ -790,6 +791,10 @@ func genGeneric(tier string) []*gcase {
 		// DROP SCHEMA with its tables: DropTable silenced, DS101 with the table count
 		{{{k: "-t", t: T(&s1, "t", a)}}, {{k: "-t", t: T(&s1, "u", a)}}, {{k: "-s", s: gsch{s1, 0}}}},
 		{{{k: "-s", s: gsch{s1, 1}}}}, {{{k: "-s", s: gsch{s1, 12}}}},
+		// the table of a schema that is dropped, re-created and dropped again: the schema's DS101 is lost (finding readded),
+		// the table's DS102 must stay (SchemaSpan is Temporary, not Dropped) -- mutant M21
+		{{{k: "-t", t: T(&s1, "t", a)}}, {{k: "-s", s: gsch{s1, 0}}}, {{k: "+s", s: gsch{s1, 0}}}, {{k: "-s", s: gsch{s1, 0}}}},
+		{{{k: "~t", t: T(&s1, "t", a), cs: []gtch{{k: "-c", c: a}}}}, {{k: "-t", t: T(&s1, "t", a)}}, {{k: "-s", s: gsch{s1, 1}}}, {{k: "+s", s: gsch{s1, 0}}}, {{k: "-s", s: gsch{s1, 0}}}},
 		// temporary schema with tables
 		{{{k: "+s", s: gsch{s1, 0}}}, {{k: "+t", t: T(&s1, "t", a)}}, {{k: "-t", t: T(&s1, "t", a)}}, {{k: "-s", s: gsch{s1, 0}}}},
 		// one statement, many changes (DROP TABLE a, b / ALTER TABLE with several drops)
